@@ -102,9 +102,12 @@ def sequence_note_frames(sequence):
     event_times: A list of length `num_frames - 1` containing the event times
         separating adjacent frames.
   """
+  # Notes starting at (or after) the end of the sequence occupy no frame; they
+  # must not be attributed to the last frame, which starts earlier.
   notes = [note for note in sequence.notes
            if not note.is_drum
-           and note.program not in constants.UNPITCHED_PROGRAMS]
+           and note.program not in constants.UNPITCHED_PROGRAMS
+           and note.start_time < sequence.total_time]
 
   onset_times = [note.start_time for note in notes]
   offset_times = [note.end_time for note in notes]
